@@ -192,10 +192,60 @@ def decorators(repo):
     return out, m_ops
 
 
+def _dict_in(fn, name, rel):
+    for n in ast.walk(fn):
+        if isinstance(n, ast.Assign) and len(n.targets) == 1 and ast.unparse(n.targets[0]) == name and isinstance(n.value, ast.Dict):
+            return n.value
+    raise ShapeChanged("%s: no dict literal assigned to %s in %s" % (rel, name, getattr(fn, "name", "module")))
+
+
+def _ast_attr(e, what):
+    if isinstance(e, ast.Attribute) and isinstance(e.value, ast.Name) and e.value.id == "ast":
+        return e.attr
+    raise ShapeChanged("%s: expected ast.<Class>, got %s" % (what, ast.unparse(e)))
+
+
+def op_tables(repo):
+    tree, _ = parse_py(repo, REL)
+    out = {}
+    un = _dict_in(top_func(tree, "compile_unary_operator", REL), "ops", REL)
+    out["unary"] = [(const_str(k, "unary op"), _ast_attr(v, "unary op")) for k, v in zip(un.keys, un.values)]
+    bo = _dict_in(top_func(tree, "compile_logical_or_and_and_operator", REL), "ops", REL)
+    rows = []
+    for k, v in zip(bo.keys, bo.values):
+        if not (isinstance(v, ast.Tuple) and len(v.elts) == 2 and isinstance(v.elts[1], ast.Constant) and v.elts[1].value in (True, None)):
+            raise ShapeChanged("%s: and/or table entry is not (ast.X, True|None)" % REL)
+        rows.append((const_str(k, "boolop"), _ast_attr(v.elts[0], "boolop"), "CTrue" if v.elts[1].value is True else "CNone"))
+    out["bool"] = rows
+    co = top_assign(tree, "c_ops", REL)   # first assignment: the literal
+    firsts = [n for n in tree.body if isinstance(n, ast.Assign) and ast.unparse(n.targets[0]) == "c_ops"]
+    if len(firsts) != 2 or not isinstance(firsts[0].value, ast.Dict) or ast.unparse(firsts[1].value) != "{mangle(k): v for k, v in c_ops.items()}":
+        raise ShapeChanged("%s: c_ops is not a dict literal followed by the mangling comprehension" % REL)
+    out["compare"] = [(const_str(k, "c_op"), _ast_attr(v, "c_op")) for k, v in zip(firsts[0].value.keys, firsts[0].value.values)]
+    mf = top_func(tree, "compile_maths_expression", REL)
+    ident = [n for n in ast.walk(mf) if isinstance(n, ast.Dict) and n.keys and all(isinstance(v, ast.Constant) and type(v.value) is int for v in n.values)]
+    if len(ident) != 1:
+        raise ShapeChanged("%s: identity-element table of compile_maths_expression not found" % REL)
+    out["identity"] = [(const_str(k, "identity"), v.value) for k, v in zip(ident[0].keys, ident[0].values)]
+    un2 = [n for n in ast.walk(mf) if isinstance(n, ast.Dict) and n.keys and all(isinstance(v, ast.Attribute) for v in n.values)]
+    if len(un2) != 1:
+        raise ShapeChanged("%s: unary plus/minus table of compile_maths_expression not found" % REL)
+    out["unary_maths"] = [(const_str(k, "unary maths"), _ast_attr(v, "unary maths")) for k, v in zip(un2[0].keys, un2[0].values)]
+    # macros written in Hy (hy/core/macros.hy): names only
+    import os
+    import re
+    with open(os.path.join(repo, "hy/core/macros.hy"), encoding="utf-8") as f:
+        names = re.findall(r"^\(defmacro\s+([^\s\[\]()]+)", f.read(), re.M)
+    if not names:
+        raise ShapeChanged("hy/core/macros.hy: no defmacro found")
+    out["hy_macros"] = names
+    return out
+
+
 def translate(repo):
     decs, m_ops = decorators(repo)
     out = "(* GENERATED by translator/valid_patterns.py from %s -- do not edit; regenerated on every check run *)\n" % REL
-    out += "From HyV Require Import Base.Text Valid.Comb.\n\n"
+    out += "From Coq Require Import ZArith.\nFrom HyV Require Import Base.Text Valid.Comb.\n\n"
     out += "(* (heads, pattern list, shadow) of every @pattern_macro decorator written in the closed combinator sub-language *)\n"
     out += "Definition grammars : list (list text * list pat * bool) := [\n"
     rows = []
@@ -212,4 +262,15 @@ def translate(repo):
     out += "(* m_ops: operator -> has an aggregation operator for augmented assignment with 3+ arguments *)\n"
     out += "Definition m_ops_agg : list (text * bool) := [%s].\n" % "; ".join(
         "(%s, %s)" % (coq_text(k), "true" if agg is not None else "false") for k, (_, agg) in m_ops.items())
+    t = op_tables(repo)
+    pair = lambda k, v: "(%s, %s)" % (coq_text(k), coq_text(v))  # noqa
+    out += "Definition m_ops_class : list (text * text) := [%s].\n" % "; ".join(pair(k, c) for k, (c, _) in m_ops.items())
+    out += "Definition c_ops_class : list (text * text) := [%s].\n" % "; ".join(pair(k, c) for k, c in t["compare"])
+    out += "Definition unary_ops_class : list (text * text) := [%s].\n" % "; ".join(pair(k, c) for k, c in t["unary"])
+    out += "Definition unary_maths_class : list (text * text) := [%s].\n" % "; ".join(pair(k, c) for k, c in t["unary_maths"])
+    out += "Definition bool_ops_class : list (text * text * bool) := [%s].\n" % "; ".join(
+        "(%s, %s, %s)" % (coq_text(k), coq_text(c), "true" if d == "CTrue" else "false") for k, c, d in t["bool"])
+    out += "Definition identity_elements : list (text * Z) := [%s].\n" % "; ".join("(%s, %d%%Z)" % (coq_text(k), v) for k, v in t["identity"])
+    out += "Definition hy_macro_names : list text := [%s].\n" % "; ".join(coq_text(n) for n in t["hy_macros"])
+    out += "Definition all_pattern_heads : list text := [%s].\n" % "; ".join(coq_text(h) for d in decs for h in d["heads"])
     return {"Gen/Patterns.v": out}
